@@ -18,6 +18,8 @@ RULE = (
     "shared annotation objects are compared with what they were. The model's verdict for each call is the FRESH verdict (declaration, "
     "values, provider values at that moment), so any dependence on history is a disagreement. Threads: 8 threads x 150 calls through "
     "shared decorated functions behind a barrier; each thread's verdict vector must equal its sequential vector. "
+    "One decorator object applied to two definitions with a same-named field (NamedTuple, dataclass, function) vs a decorator object each; a "
+    "forward reference unresolved at decoration and at the first call, resolved later, vs the same function not called early. "
     "non-trivial = distinct history with >=2 calls"
 )
 
@@ -104,9 +106,85 @@ def search(run, tier):
     run.coverage["history_dependence_found"] = found
 
 
+def reuse_and_late(run):
+    """(a) ONE decorator object applied to several functions / classes: each decorated thing is judged by its own annotations,
+    exactly as with a decorator object of its own.  (b) A forward reference that is still unresolved at decoration AND at the first
+    call, and resolved later: every later call is checked as if the name had always been there (an earlier call changes nothing)."""
+    import dataclasses
+    import typing
+    import warnings
+
+    import numpy as np
+
+    dltype = impl.dltype
+    An = typing.Annotated
+    F2 = An[np.ndarray, dltype.FloatTensor["h w"]]
+    I1 = An[np.ndarray, dltype.IntTensor["n"]]
+    vals = {"f23": np.zeros((2, 3), np.float32), "i4": np.zeros((4,), np.int64), "f4": np.zeros((4,), np.float32), "i23": np.zeros((2, 3), np.int32)}
+
+    def verdict(fn, *a):
+        try:
+            fn(*a)
+            return "ok"
+        except dltype.DLTypeError as e:
+            return type(e).__name__
+        except Exception as e:  # noqa: BLE001
+            return "EXC " + type(e).__name__
+
+    def build(kind, shared):
+        """two things with a same-named field / parameter `data` and different annotations, decorated through one decorator
+        object (`shared`) or through one each"""
+        factory = {"nt": dltype.dltyped_namedtuple, "dc": dltype.dltyped_dataclass, "fn": dltype.dltyped}[kind]
+        one = factory()
+        dec = (lambda: one) if shared else factory
+        # (built with exec: this module postpones the evaluation of annotations, the names must be found in the namespace)
+        ns = {"typing": typing, "dataclasses": dataclasses, "F2": F2, "I1": I1}
+        src = {
+            "nt": "class A(typing.NamedTuple):\n    data: F2\nclass B(typing.NamedTuple):\n    data: I1\n",
+            "dc": "@dataclasses.dataclass\nclass A:\n    data: F2\n@dataclasses.dataclass\nclass B:\n    data: I1\n",
+            "fn": "def A(data: F2) -> None:\n    return None\ndef B(data: I1) -> None:\n    return None\n",
+        }[kind]
+        exec(compile(src, "<reuse>", "exec", dont_inherit=True), ns)  # noqa: S102
+        A, B = ns["A"], ns["B"]
+        return dec()(A), dec()(B)
+
+    n = 0
+    with warnings.catch_warnings():
+        warnings.simplefilter("ignore")
+        for kind in ("nt", "dc", "fn"):
+            sa, sb = build(kind, True)
+            fa, fb = build(kind, False)
+            for nm, v in vals.items():
+                for which, shared_obj, fresh_obj in (("first", sa, fa), ("second", sb, fb)):
+                    n += 1
+                    got, want = verdict(shared_obj, v), verdict(fresh_obj, v)
+                    if got != want:
+                        run.findings.append(Finding("failing-input", f"one {kind} decorator object applied to two definitions with a same-named `data`: the {which} one gives {got} for {nm}, "
+                                                    f"with a decorator object of its own {want}", Case(f"REUSE\t{kind}\t{which}\t{nm}", "reuse"), got, "", want))
+        # (b) late forward reference
+        ns = {"dltype": dltype, "np": np, "An": An}
+        src = ("@dltype.dltyped()\ndef early(x: 'Late') -> None:\n    return None\n"
+               "@dltype.dltyped()\ndef fresh(x: 'Late') -> None:\n    return None\n")
+        exec(compile(src, "<late>", "exec"), ns)  # noqa: S102
+        first = verdict(ns["early"], vals["f4"])           # `Late` does not exist yet: the call cannot be checked
+        ns["Late"] = F2                                     # ... now it does
+        for nm, v in vals.items():
+            n += 1
+            got, want = verdict(ns["early"], v), verdict(ns["fresh"], v)
+            if got != want:
+                run.findings.append(Finding("failing-input", f"a function whose forward reference was unresolved at its first call (which gave {first}) and resolved afterwards gives {got} for {nm}; "
+                                            f"the identical function that was not called early gives {want}", Case(f"LATE\t{nm}", "late"), got, "", want))
+    run.n_cases += n
+    run.n_distinct_nontrivial += n
+    run.dist["reuse+late"] += n
+    run.coverage["reuse_and_late_calls"] = n
+
+
 def custom(run, tier):
     """threads: each thread's verdict vector equals its sequential one"""
     import numpy as np
+
+    reuse_and_late(run)
 
     dltype = impl.dltype
     from typing import Annotated
